@@ -993,15 +993,16 @@ void MathExplorer::run_placement()
     const auto comp = companion_values<T>();
     // subjects: windows (+-2 ulp) at every switch point, both signs, specials, a few values per binade
     std::vector<uint64_t> subj;
+    // (thorough: wider windows, every binade of float / every 8th of double with more mantissas, a larger lattice)
     for (double c : SWITCH_POINTS)
-        window<T>(subj, (T)c, 2);
+        window<T>(subj, (T)c, thorough ? 8 : 2);
     {
-        auto L0 = fp_lattice<T>(seed, 8, 0);
+        auto L0 = fp_lattice<T>(seed, thorough ? 64 : 8, 0);
         subj.insert(subj.end(), L0.v.begin(), L0.v.end());
-        auto Bn = binades<T>(2, seed, true, std::is_same<T, float>::value ? 8 : 64);
+        auto Bn = binades<T>(thorough ? 4 : 2, seed, true, std::is_same<T, float>::value ? (thorough ? 1 : 8) : (thorough ? 8 : 64));
         subj.insert(subj.end(), Bn.v.begin(), Bn.v.end());
-        for (int k = 1; k <= 80; ++k)
-            window<T>(subj, (T)(k * 0.5), 1);
+        for (int k = 1; k <= (thorough ? 360 : 80); ++k)
+            window<T>(subj, (T)(k * 0.5), thorough ? 2 : 1);
     }
     dedup_keep_order(subj);
     const size_t NS = subj.size();
@@ -1285,9 +1286,12 @@ void MathExplorer::run_complex()
     const long double EPS = std::numeric_limits<T>::epsilon();
     const long double MAX = mlim<T>::MAX, MIN = mlim<T>::MIN;
     const long double PLIM_HI = sqrtl(MAX) / 4, PLIM_LO = sqrtl(MIN) * 4;
-    auto G1 = cgrid<T>(std::is_same<T, float>::value ? 2 : 12, 64, seed, true);
-    auto G2 = cgrid<T>(std::is_same<T, float>::value ? 8 : 60, 12, seed, true);
-    auto G3 = cgrid<T>(std::is_same<T, float>::value ? 20 : 150, 4, seed, false, 8, false);
+    constexpr bool FL = std::is_same<T, float>::value;
+    // thorough: every binade (float) / every 4th (double) with 256 arguments for the unary functions, a 2x denser
+    // modulus ladder and 20 arguments for the pairs, a 1.5x denser ladder and 6 arguments for the triples
+    auto G1 = thorough ? cgrid<T>(FL ? 1 : 4, 256, seed, true, 256) : cgrid<T>(FL ? 2 : 12, 64, seed, true);
+    auto G2 = thorough ? cgrid<T>(FL ? 2 : 15, 32, seed, true, 128) : cgrid<T>(FL ? 8 : 60, 12, seed, true);
+    auto G3 = thorough ? cgrid<T>(FL ? 8 : 60, 8, seed, false, 12, false) : cgrid<T>(FL ? 20 : 150, 4, seed, false, 8, false);
     const std::vector<long double> YS = { -3, -2, -1, -0.5L, 0.5L, 1, 2, 3, 2.5L, 10, 0.3333333L };
     for (auto& f : CFUNS)
     {
